@@ -13,6 +13,8 @@ def main():
     spec = json.loads(sys.argv[1])
     from Cython.Compiler import Main, Options, Errors
     pyload.assert_sources()
+    for k, v in (spec.get("global_options") or {}).items():
+        setattr(Options, k, v)      # module-level switches such as Options.cache_builtins
     directives = dict(Options.get_directive_defaults())
     directives.update(spec.get("directives") or {})
     if "language_level" not in (spec.get("directives") or {}):
